@@ -99,3 +99,272 @@ Proof.
     rewrite mk_tiled_bytes by assumption. reflexivity.
   - destruct (rlen r * z <=? MAX_BINARY_SIZE) eqn:E7; zb; [lia | ill].
 Qed.
+
+(* ---------------------------------------------------------------- byte-wise ops keep bytes *)
+Definition byte_op_closed (op : Z -> Z -> Z) : bool :=
+  forallb (fun x => forallb (fun y => byteb (op x y)) (zrange 256)) (zrange 256).
+
+Lemma byte_op_closed_spec op : byte_op_closed op = true ->
+  forall x y, 0 <= x < 256 -> 0 <= y < 256 -> 0 <= op x y < 256.
+Proof.
+  intros H x y Hx Hy. unfold byte_op_closed in H. rewrite forallb_forall in H.
+  specialize (H x (proj2 (zrange_In 256 x) Hx)). rewrite forallb_forall in H.
+  specialize (H y (proj2 (zrange_In 256 y) Hy)). unfold byteb in H.
+  apply andb_true_iff in H. destruct H as [H1 H2]. apply Z.leb_le in H1. apply Z.ltb_lt in H2. lia.
+Qed.
+
+Lemma land_closed : byte_op_closed Z.land = true. Proof. vm_compute. reflexivity. Qed.
+Lemma lor_closed : byte_op_closed Z.lor = true. Proof. vm_compute. reflexivity. Qed.
+Lemma lxor_closed : byte_op_closed Z.lxor = true. Proof. vm_compute. reflexivity. Qed.
+
+Lemma zip_with_map2 f l1 l2 : zip_with f l1 l2 = map2 f l1 l2.
+Proof.
+  revert l2. induction l1 as [|x t IH]; intros [|y u]; try reflexivity.
+  unfold map2 in *. cbn [zip_with combine map fst snd]. rewrite IH. reflexivity.
+Qed.
+
+Lemma map2_length f l1 l2 : length (map2 f l1 l2) = Nat.min (length l1) (length l2).
+Proof. unfold map2. rewrite map_length, combine_length. reflexivity. Qed.
+
+Lemma map2_bytes_ok f l1 l2 :
+  (forall x y, 0 <= x < 256 -> 0 <= y < 256 -> 0 <= f x y < 256) ->
+  bytes_ok l1 -> bytes_ok l2 -> bytes_ok (map2 f l1 l2).
+Proof.
+  intros Hf H1. revert l2. induction H1 as [|x t Hx Ht IH]; intros l2 H2.
+  - constructor.
+  - destruct H2 as [|y u Hy Hu]; [constructor|].
+    unfold map2 in *. cbn [combine map fst snd]. constructor; [apply Hf; assumption | apply IH; assumption].
+Qed.
+
+(* ---------------------------------------------------------------- and *)
+Theorem binary_and_correct : agrees impl_binary_and spec_binary_and.
+Proof.
+  intros a Ha. tup2 a. rename r into ra, r0 into rb.
+  cbn [wf_bval] in Ha. destruct Ha as (Ha & Hb & _).
+  cbn [impl_binary_and flatten map spec_binary_and].
+  rewrite !rope_iter_spec by assumption. rewrite zip_with_map2.
+  assert (Hlen : Z.of_nat (length (map2 Z.land (bytes_of ra) (bytes_of rb))) <= MAX_BINARY_SIZE).
+  { rewrite map2_length. pose proof (wf_rlen_bound _ Ha) as Ba. rewrite (rlen_bytes_of _ Ha) in Ba. lia. }
+  rewrite alloc_bytes_ok by exact Hlen.
+  cbn [flatten_out flatten bytes_of wf_out wf_bval wf]. split; [reflexivity|]. split; [|exact Hlen].
+  apply map2_bytes_ok; [apply byte_op_closed_spec, land_closed | apply bytes_of_ok; assumption ..].
+Qed.
+
+(* ---------------------------------------------------------------- or / xor *)
+Lemma nth_pad_to n l i : nth i (pad_to n l) 0 = nth i l 0.
+Proof.
+  unfold pad_to. destruct (Nat.lt_ge_cases i (length l)) as [H|H].
+  - apply app_nth1; exact H.
+  - rewrite app_nth2 by exact H. rewrite (nth_overflow l) by exact H.
+    destruct (Nat.lt_ge_cases (i - length l) (n - length l)) as [H2|H2].
+    + apply nth_repeat.
+    + apply nth_overflow. rewrite repeat_length. exact H2.
+Qed.
+
+Lemma pad_to_length n l : (length l <= n)%nat -> length (pad_to n l) = n.
+Proof. intros H. unfold pad_to. rewrite app_length, repeat_length. lia. Qed.
+
+Lemma pad_to_bytes_ok n l : bytes_ok l -> bytes_ok (pad_to n l).
+Proof. intros H. unfold pad_to, bytes_ok. apply Forall_app. split; [exact H|]. apply Forall_repeat_intro. lia. Qed.
+
+Lemma map2_nth f l1 l2 i : length l1 = length l2 -> (i < length l1)%nat ->
+  nth i (map2 f l1 l2) (f 0 0) = f (nth i l1 0) (nth i l2 0).
+Proof.
+  intros Hl Hi. unfold map2.
+  change (f 0 0) with ((fun p : Z * Z => f (fst p) (snd p)) (0, 0)). rewrite map_nth.
+  rewrite combine_nth by exact Hl. reflexivity.
+Qed.
+
+Lemma padded_byte_val r i : wf r -> 0 <= i ->
+  padded_byte r (rlen r) i = Val (nth (Z.to_nat i) (bytes_of r) 0).
+Proof.
+  intros Hw Hi. unfold padded_byte. destruct (Z.ltb_spec i (rlen r)) as [H|H].
+  - destruct (byte_at_in_range r i Hw (conj Hi H)) as (b & E1 & E2 & _). rewrite E1.
+    rewrite (nth_error_nth _ _ 0 E2). reflexivity.
+  - rewrite nth_overflow; [reflexivity|]. rewrite (rlen_bytes_of _ Hw) in H. lia.
+Qed.
+
+Lemma padded_op_correct op ra rb : byte_op_closed op = true -> wf ra -> wf rb ->
+  let n := Nat.max (length (bytes_of ra)) (length (bytes_of rb)) in
+  let out := map2 op (pad_to n (bytes_of ra)) (pad_to n (bytes_of rb)) in
+  padded_op op ra rb = Val (BBin (Owned out)) /\ wf (Owned out).
+Proof.
+  intros Hop Ha Hb n out. unfold padded_op.
+  pose proof (rlen_bytes_of _ Ha) as La. pose proof (rlen_bytes_of _ Hb) as Lb.
+  pose proof (wf_rlen_bound _ Ha) as Ba. pose proof (wf_rlen_bound _ Hb) as Bb.
+  assert (Hn : Z.max (rlen ra) (rlen rb) = Z.of_nat n) by (unfold n; lia).
+  set (g := fun i => op (nth (Z.to_nat i) (bytes_of ra) 0) (nth (Z.to_nat i) (bytes_of rb) 0)).
+  rewrite (omap_val _ g).
+  2:{ intros i Hi. apply zrange_In in Hi. rewrite !padded_byte_val by (assumption || lia). reflexivity. }
+  cbn [obind].
+  assert (Hout : map g (zrange (Z.max (rlen ra) (rlen rb))) = out).
+  { rewrite Hn. unfold zrange. rewrite Nat2Z.id, map_map.
+    assert (Hpa : length (pad_to n (bytes_of ra)) = n) by (apply pad_to_length; unfold n; lia).
+    assert (Hpb : length (pad_to n (bytes_of rb)) = n) by (apply pad_to_length; unfold n; lia).
+    apply (nth_ext _ _ (op 0 0) (op 0 0)).
+    - rewrite map_length, seq_length. unfold out. rewrite map2_length, Hpa, Hpb. lia.
+    - intros i Hi. rewrite map_length, seq_length in Hi.
+      set (F := fun x : nat => g (Z.of_nat x)).
+      rewrite (nth_indep (map F (seq 0 n)) (op 0 0) (F 0%nat)) by (rewrite map_length, seq_length; exact Hi).
+      rewrite (map_nth F). rewrite seq_nth by exact Hi. cbn [Nat.add]. unfold F, g, out. rewrite Nat2Z.id.
+      rewrite map2_nth by (rewrite ?Hpa, ?Hpb; (reflexivity || exact Hi)).
+      rewrite !nth_pad_to. reflexivity. }
+  rewrite Hout.
+  assert (Hlen : Z.of_nat (length out) <= MAX_BINARY_SIZE).
+  { unfold out. rewrite map2_length, !pad_to_length by (unfold n; lia). lia. }
+  rewrite alloc_bytes_ok by exact Hlen. split; [reflexivity|].
+  cbn [wf]. split; [|exact Hlen].
+  apply map2_bytes_ok; [apply byte_op_closed_spec, Hop | apply pad_to_bytes_ok, bytes_of_ok; assumption ..].
+Qed.
+
+Theorem binary_or_correct : agrees impl_binary_or spec_binary_or.
+Proof.
+  intros a Ha. tup2 a. rename r into ra, r0 into rb.
+  cbn [wf_bval] in Ha. destruct Ha as (Ha & Hb & _).
+  destruct (padded_op_correct Z.lor ra rb lor_closed Ha Hb) as [E Hw].
+  cbn [impl_binary_or flatten map]. unfold spec_binary_or. cbn [spec_padded]. rewrite E.
+  cbn [flatten_out flatten bytes_of wf_out wf_bval]. split; [reflexivity | exact Hw].
+Qed.
+
+Theorem binary_xor_correct : agrees impl_binary_xor spec_binary_xor.
+Proof.
+  intros a Ha. tup2 a. rename r into ra, r0 into rb.
+  cbn [wf_bval] in Ha. destruct Ha as (Ha & Hb & _).
+  destruct (padded_op_correct Z.lxor ra rb lxor_closed Ha Hb) as [E Hw].
+  cbn [impl_binary_xor flatten map]. unfold spec_binary_xor. cbn [spec_padded]. rewrite E.
+  cbn [flatten_out flatten bytes_of wf_out wf_bval]. split; [reflexivity | exact Hw].
+Qed.
+
+(* ---------------------------------------------------------------- not *)
+Theorem binary_not_correct : agrees impl_binary_not spec_binary_not.
+Proof.
+  intros a Ha. destruct a as [z|r|fs|]; try ill.
+  cbn [wf_bval] in Ha. cbn [impl_binary_not flatten spec_binary_not].
+  rewrite rope_iter_spec by exact Ha.
+  assert (Hlen : Z.of_nat (length (map (fun b => 255 - b) (bytes_of r))) <= MAX_BINARY_SIZE).
+  { rewrite map_length. pose proof (wf_rlen_bound _ Ha) as Ba. rewrite (rlen_bytes_of _ Ha) in Ba. lia. }
+  rewrite alloc_bytes_ok by exact Hlen.
+  cbn [flatten_out flatten bytes_of wf_out wf_bval wf]. split; [reflexivity|]. split; [|exact Hlen].
+  pose proof (bytes_of_ok _ Ha) as Hok. unfold bytes_ok in *. rewrite Forall_map.
+  eapply Forall_impl; [|exact Hok]. cbn beta. intros b Hb. lia.
+Qed.
+
+(* ---------------------------------------------------------------- index *)
+Theorem binary_index_correct : agrees impl_binary_index spec_binary_index.
+Proof.
+  intros a Ha. tup3 a. rename z0 into byte, z into off.
+  cbn [wf_bval] in Ha. destruct Ha as (Ha & _).
+  cbn [impl_binary_index flatten map spec_binary_index].
+  unfold to_u8_checked, to_usize_checked, byteb, in_u64.
+  destruct (0 <=? byte) eqn:E1; cbn [andb obind]; [|ill].
+  destruct (byte <? 256) eqn:E2; cbn [andb obind]; [|ill].
+  destruct (off <? 0) eqn:E3; destruct (0 <=? off) eqn:E4; zb; try lia; cbn [andb obind]; [ill|].
+  destruct (off <? two64) eqn:E5; cbn [andb obind]; [|ill].
+  rewrite find_byte_spec by assumption.
+  destruct (find_from byte (bytes_of r) off); ill.
+Qed.
+
+(* ---------------------------------------------------------------- slice *)
+Theorem binary_slice_correct : agrees impl_binary_slice spec_binary_slice.
+Proof.
+  intros a Ha. tup3 a. rename z0 into s, z into e.
+  cbn [wf_bval] in Ha. destruct Ha as (Ha & _).
+  pose proof (wf_rlen_bound _ Ha) as Ba. pose proof max_lt_two64 as HM.
+  cbn [impl_binary_slice flatten map spec_binary_slice]. rewrite blen_bytes_of by exact Ha.
+  unfold to_usize_checked, in_u64.
+  destruct ((0 <=? s) && (s <=? e) && (e <=? rlen r)) eqn:Espec.
+  - zb.
+    destruct (s <? 0) eqn:E1; zb; [lia|]. destruct (e <? 0) eqn:E2; zb; [lia|]. cbn [orb].
+    destruct (0 <=? s) eqn:E3; zb; [|lia]. destruct (s <? two64) eqn:E4; zb; [|lia]. cbn [andb obind].
+    destruct (0 <=? e) eqn:E5; zb; [|lia]. destruct (e <? two64) eqn:E6; zb; [|lia]. cbn [andb obind].
+    destruct (rlen r <? s) eqn:E7; zb; [lia|]. destruct (rlen r <? e) eqn:E8; zb; [lia|]. cbn [orb].
+    destruct (e <? s) eqn:E9; zb; [lia|].
+    destruct (mk_slice_some r s (e - s) Ha) as (x & Ex & Wx & Bx); try lia.
+    rewrite Ex. rewrite alloc_wf by exact Wx.
+    cbn [flatten_out flatten wf_out wf_bval]. rewrite Bx. split; [reflexivity | exact Wx].
+  - split; [|].
+    + destruct (s <? 0) eqn:E1; [reflexivity|]. destruct (e <? 0) eqn:E2; [reflexivity|]. cbn [orb].
+      destruct ((0 <=? s) && (s <? two64)); cbn [obind]; [|reflexivity].
+      destruct ((0 <=? e) && (e <? two64)); cbn [obind]; [|reflexivity].
+      destruct (rlen r <? s) eqn:E7; [reflexivity|]. destruct (rlen r <? e) eqn:E8; [reflexivity|]. cbn [orb].
+      destruct (e <? s) eqn:E9; [reflexivity|]. zb.
+      exfalso. apply andb_false_iff in Espec. destruct Espec as [Espec|Espec]; [apply andb_false_iff in Espec; destruct Espec as [Espec|Espec]|]; zb; lia.
+    + destruct (s <? 0) eqn:E1; [exact I|]. destruct (e <? 0) eqn:E2; [exact I|]. cbn [orb].
+      destruct ((0 <=? s) && (s <? two64)); cbn [obind]; [|exact I].
+      destruct ((0 <=? e) && (e <? two64)); cbn [obind]; [|exact I].
+      destruct (rlen r <? s) eqn:E7; [exact I|]. destruct (rlen r <? e) eqn:E8; [exact I|]. cbn [orb].
+      destruct (e <? s) eqn:E9; [exact I|]. zb.
+      exfalso. apply andb_false_iff in Espec. destruct Espec as [Espec|Espec]; [apply andb_false_iff in Espec; destruct Espec as [Espec|Espec]|]; zb; lia.
+Qed.
+
+(* ---------------------------------------------------------------- popcount *)
+Lemma popcount_bits_set : forallb (fun b => popcount b =? bits_set b) (zrange 256) = true.
+Proof. vm_compute. reflexivity. Qed.
+
+Lemma popcount_byte b : 0 <= b < 256 -> popcount b = bits_set b.
+Proof.
+  intros H. pose proof popcount_bits_set as P. rewrite forallb_forall in P.
+  apply Z.eqb_eq. apply P. apply zrange_In. exact H.
+Qed.
+
+Lemma filter_length_le' {A} (f : A -> bool) l : (length (filter f l) <= length l)%nat.
+Proof. induction l as [|x t IH]; cbn [filter length]; [lia|]. destruct (f x); cbn [length]; lia. Qed.
+
+Lemma bits_set_bound b : 0 <= bits_set b <= 8.
+Proof.
+  unfold bits_set. pose proof (filter_length_le' (fun i => Z.testbit b (Z.of_nat i)) (seq 0 8)) as H.
+  rewrite seq_length in H. lia.
+Qed.
+
+Lemma fold_popcount l acc : bytes_ok l ->
+  fold_left (fun acc b => acc + popcount b) l acc = acc + fold_right Z.add 0 (map bits_set l).
+Proof.
+  intros H. revert acc. induction H as [|b t Hb Ht IH]; intros acc; cbn [fold_left map fold_right]; [lia|].
+  rewrite IH. rewrite popcount_byte by exact Hb. lia.
+Qed.
+
+Lemma sum_bits_set_bound l : 0 <= fold_right Z.add 0 (map bits_set l) <= 8 * Z.of_nat (length l).
+Proof.
+  induction l as [|b t IH]; cbn [map fold_right length]; [lia|].
+  pose proof (bits_set_bound b). lia.
+Qed.
+
+Theorem binary_popcount_correct : agrees impl_binary_popcount spec_binary_popcount.
+Proof.
+  intros a Ha. destruct a as [z|r|fs|]; try ill.
+  cbn [wf_bval] in Ha. cbn [impl_binary_popcount flatten spec_binary_popcount].
+  rewrite rope_iter_spec by exact Ha. rewrite fold_popcount by (apply bytes_of_ok; exact Ha).
+  rewrite Z.add_0_l.
+  pose proof (sum_bits_set_bound (bytes_of r)) as B. pose proof (wf_rlen_bound _ Ha) as Ba.
+  rewrite (rlen_bytes_of _ Ha) in Ba.
+  rewrite in_u64_true by (unfold two64, MAX_BINARY_SIZE in *; lia). ill.
+Qed.
+
+(* ---------------------------------------------------------------- hash32 / hash64 *)
+Theorem binary_hash32_correct : agrees impl_binary_hash32 spec_binary_hash32.
+Proof.
+  intros a Ha. destruct a as [z|r|fs|]; try ill.
+  cbn [wf_bval] in Ha. cbn [impl_binary_hash32 flatten spec_binary_hash32].
+  rewrite rope_iter_spec by exact Ha. ill.
+Qed.
+
+Theorem binary_hash64_correct : agrees impl_binary_hash64 spec_binary_hash64.
+Proof.
+  intros a Ha. destruct a as [z|r|fs|]; try ill.
+  cbn [wf_bval] in Ha. cbn [impl_binary_hash64 flatten spec_binary_hash64].
+  rewrite rope_iter_spec by exact Ha. ill.
+Qed.
+
+(* ---------------------------------------------------------------- non-vacuity *)
+Example binary_examples :
+  wf_bval (BTup [BBin (Concat (Slice (Owned [1;2;3;4;5]) 1 3) (Tiled (Owned [7;0]) 2) 7); BInt 0; BInt 2]) /\
+  flatten_out (impl_binary_index (BTup [BBin (Concat (Slice (Owned [1;2;3;4;5]) 1 3) (Tiled (Owned [7;0]) 2) 7); BInt 0; BInt 2]))
+    = Val (FInt 4) /\
+  flatten_out (impl_binary_xor (BTup [BBin (Zeroed 3); BBin (Owned [255])])) = Val (FBin [255;0;0]) /\
+  flatten_out (impl_binary_hash32 (BBin (Owned [97]))) = Val (FInt 3826002220).
+Proof.
+  split.
+  - cbn [wf_bval wf rlen]. unfold bytes_ok, MAX_BINARY_SIZE. cbn [length].
+    repeat split; try lia; repeat constructor; lia.
+  - vm_compute. repeat split; reflexivity.
+Qed.
